@@ -50,6 +50,42 @@ namespace Upnp.C10
 open Upnp PyDict Upnp.C09
 variable [FloatOracle]
 
+/-- **Status selection on the handler, for every state** (no well-formedness of the handler needed): a NOTIFY
+    whose body is XML is answered 400 / 412 / 200 by the rule, whether its SID is routed, foreign or unknown. -/
+theorem status_any_handler (h : Handler) (n : Notify) (tick : Nat) (hm : n.malformed = false) :
+    (handleNotify h n tick).2 = .status (specStatus n.hdrs) := by
+  have hspec := (status_spec n.hdrs).1
+  rw [handleNotify_eq]
+  by_cases h200 : specStatus n.hdrs = 200
+  · rw [if_pos h200] at hspec
+    have hsid : ∃ s, n.hdrs.sid = some s := by
+      cases hs : n.hdrs.sid with
+      | some s => exact ⟨s, rfl⟩
+      | none =>
+        simp only [specStatus, hs, Option.isNone_none, Bool.or_true] at h200
+        split at h200 <;> simp at h200
+    obtain ⟨s, hs⟩ := hsid
+    simp only [hspec, hs, hm, h200, (status_spec n.hdrs).2.1, (status_spec n.hdrs).2.2]
+    cases get? h.rt s <;> simp
+  · rw [if_neg h200] at hspec
+    simp only [hspec]
+
+/-- **Unknown names are skipped, for every property set**: the entries of the `changes` dict whose tag resolves
+    to no state variable of the service can be deleted without changing anything (no hypothesis on the body or
+    on the declarations). -/
+theorem unknown_names_skipped (names : List Str) (tick : Nat) (ch : List (Str × Str)) (vars : List Var) (acc : List Str) :
+    applyChanges names tick ch vars acc
+      = applyChanges names tick (ch.filter fun p => (resolveName names p.1).isSome) vars acc := by
+  rw [applyChanges_named, applyChanges_named]
+  congr 1
+  induction ch with
+  | nil => rfl
+  | cons p r ih =>
+    simp only [List.filterMap_cons, List.filter_cons]
+    cases hres : resolveName names p.1 with
+    | none => simpa [hres] using ih
+    | some n => simp [hres, ih]
+
 /-- the handler's services are the declared ones (distinct, brace-free variable names per service) -/
 def handlerWF (decls : List (List Var)) (h : Handler) : Prop :=
   h.svcs.map declsOf = decls ∧ ∀ ds ∈ decls, declsWF ds
@@ -132,6 +168,23 @@ theorem apply_complete (s : Svc) (hs : declsWF s.vars) (b : Body) (hb : bodyWF b
   refine ⟨varAfter (assigns s.names b) tick v, _, List.mem_map_of_mem hv, h1.1, rfl, ?_⟩
   rw [listedOf_contains _ (assigns_nodup s.names (names_braceFree s hs) b hb) tick s.vars hnd v hv]
   exact h2
+
+/-- **Exact semantics for ANY property set** (no `bodyWF`: repeated elements and `x` / `{ns}x` mixed included).
+    With distinct variable names, one event leaves every variable as the fold of the `upnp_value` setter over
+    the entries of the `changes` dict addressed to it (tag resolving to its name), in dict order — each entry
+    converted and stored on its own, a rejected one leaving what the previous one stored —, and the single callback
+    lists, in that order, the entries that did not raise `UpnpValueError` (a variable addressed through two tags is
+    listed twice).  `apply_complete` is the `bodyWF` special case with at most one entry per variable. -/
+theorem apply_exact_any_body (s : Svc) (hnd : (s.vars.map (·.decl.name)).Nodup) (b : Body) (tick : Nat) :
+    notifyChanged s (changesOf b) tick =
+      { vars := s.vars.map (varFold tick (assigns s.names b)),
+        events := s.events ++ [listedOf (assigns s.names b) tick s.vars] } := by
+  unfold notifyChanged
+  rw [applyChanges_named s.names tick (changesOf b)]
+  have := applyNamed_exact tick (assigns s.names b) s.vars hnd []
+  unfold assigns at this ⊢
+  rw [this]
+  simp
 
 /-- **Isolation**: the outcome for a variable does not depend on the other properties — two well-formed
     property sets that carry the same text (or nothing) for `v` leave `v` in the same state. -/
@@ -237,5 +290,14 @@ example : stepOk [exVars, exVars1]
         [[(['A'], .int 50, some 7), (['B'], .none, none), (['C'], .bool true, some 7), (['D'], .none, none),
           (['T'], .none, none)],
          [(['A'], .none, none)]] } = false := by decide
+
+/-- mixed tags (outside `bodyWF`, not judged at run time): `[A=1, {u:q}A=2, A=3]` — the dict holds `A ↦ 3` then
+    `{u:q}A ↦ 2`, so A ends at 2 and is listed twice; `apply_exact_any_body` is the theorem behind this value -/
+def exMixed : Notify :=
+  { hdrs := ⟨some ntEvent, some ntsPropchange, some ['s','0']⟩,
+    body := [⟨true, [⟨[], ['A'], ['1']⟩, ⟨['u',':','q'], ['A'], ['2']⟩, ⟨[], ['A'], ['3']⟩]⟩] }
+example : bodyWF exMixed.body = false := by decide
+example : ((modelObs exHandler exMixed 3).after.head?.bind (·.head?)) = some (['A'], .int 2, some 3)
+    ∧ (modelObs exHandler exMixed 3).events = [[[['A'], ['A']]], []] := by decide
 
 end Upnp.C10.Ex
